@@ -694,3 +694,23 @@ def install_abigen(eng):
         full, contract = ABIGEN_PKGS[pkg]
         name = "(*%s%s.%sFilterer).Parse%s" % (CT, full, contract, event)
         eng.intrinsics[name] = (lambda e, s, f, a, i, n=name: _abigen_parse(e, s, f, a, i, n))
+
+
+# ---- regexp on concrete strings (table-name validation and the like)
+@intr("regexp.MustCompile")
+def regexp_mustcompile(eng, st, fr, args, ins):
+    if not isinstance(args[0], str):
+        raise Unsupported("regexp.MustCompile of a symbolic pattern")
+    return eng.alloc_val(st, "zz:regexp", (args[0],))
+
+
+@intr("(*regexp.Regexp).MatchString")
+def regexp_matchstring(eng, st, fr, args, ins):
+    import re
+    r, s = args
+    if isinstance(r, Opaque) or r is None:
+        raise Unsupported("regexp not created by a modelled call")
+    pat = eng.load(st, r)[0]
+    if not isinstance(s, str):
+        raise Unsupported("regexp match on a symbolic string")
+    return re.search(pat, s) is not None
